@@ -25,6 +25,16 @@ def replace_node(node: _M, repl: _M) -> None:
         repl.reattach(token_store)
 
 
+def _check_detachable(values: Iterable[base.RawModel]) -> None:
+    """Raises before anything is modified if any value cannot be detached."""
+    for value in values:
+        token_store = value.token_store
+        if token_store and (
+                value.first_token is not token_store.get_first() or
+                value.last_token is not token_store.get_last()):
+            raise ValueError('Cannot reuse node. Consider making a copy.')
+
+
 class required_node_property(base_rw_property[_M, base.RawTreeModel]):
     def __init__(self, inner_field: required_field[_M]) -> None:
         super().__init__()
@@ -134,6 +144,8 @@ class RepeatedNodeWrapper(MutableSequence[_M]):
             length: Optional[int] = None,
             separators_before_last: Optional[base.RawTokenModel] = None,
     ) -> None:
+        values = list(values)
+        _check_detachable(values)
         tokens: list[base.RawTokenModel] = []
         ref = self._prev_last(index)
         if length is None:
@@ -195,6 +207,7 @@ class RepeatedNodeWrapper(MutableSequence[_M]):
             return
         assert isinstance(value, Iterable)
         values = list(value)
+        _check_detachable(values)
         r = indexes.range_from_index(index, len(self._repeated.items))
         separators_before_last = (
             self._repeated.token_store.get_prev(self._repeated.items[0].first_token)
